@@ -14,7 +14,7 @@ BUILT = {
          "Every successful allocation in generated histories is checked for the stated capacity, offset alignment and address alignment, including recycled segments, odd cursor residues and zero-size requests on full arenas.",
          "same as C01", "5/C03"),
  "C04": ("engine-a", "exploration", "boundary-value stateful property testing under checked and unchecked builds, supervised worker processes",
-         "Boundary-dense huge sizes on every reachable state, same seeds under overflow-checked and unchecked builds; panics are caught, signals are caught by the supervisor and minimised by delta debugging in child processes.",
+         "Boundary-dense huge sizes on every reachable state, same seeds under overflow-checked and unchecked builds; panics are caught, signals are caught by the supervisor and minimised by delta debugging in child processes. The thorough tier adds a coverage-guided stage: the same interpreter as a libFuzzer target (cargo +nightly fuzz, AddressSanitizer, 16 jobs), so that any access outside the arena's heap block is a crash.",
          "out-of-arena accesses are seen through consequences (signal, corrupted neighbour) in the quick tier", "5/C04"),
  "C05": ("engine-a", "exploration", "stateful property testing with close/reopen steps, state-before-close = state-after-open relation",
          "Histories on real files cut by drop+reopen in the four open modes with same/larger/absent capacity; state tuple, free list and all handed-out bytes compared across each reopen; shadow map carried over so later allocations are checked against pre-close live ranges.",
@@ -102,6 +102,7 @@ def main():
             {"name": "checksum-engine", "path": "/verif/harness/src/props/small.rs", "serves_properties": ["C19"], "kind_free_text": "micro-case property engine for Allocator::checksum"},
             {"name": "file-engine", "path": "/verif/harness/src/props/c09.rs", "serves_properties": ["C09"], "kind_free_text": "file mutator + read-only session engine on top of Engine A's file builder"},
             {"name": "engine-b", "path": "/verif/harness/src/engb.rs", "serves_properties": ["C02", "C07", "C12", "C13"], "kind_free_text": "controlled scheduler: real threads, real sync::Arena, baton passed at every atomic access (verif hook) following a generated schedule; shadow map, stall detector, vector-clock race detector"},
+            {"name": "fuzz-hist", "path": "/verif/harness/fuzz/fuzz_targets/hist.rs", "serves_properties": ["C04"], "kind_free_text": "libFuzzer + AddressSanitizer target over the Engine A interpreter (structure-aware byte decoder in harness/src/fuzzdec.rs); thorough tier of C04"},
             {"name": "engine-a", "path": "/verif/harness/src/enga.rs", "serves_properties": [p for p in ALL if p in BUILT and BUILT[p][0] == "engine-a"], "kind_free_text": "single-threaded model-based history interpreter driven by proptest strategies; shadow map + free-list snapshot oracles; worker processes under a supervisor"},
         ],
         "checks": checks,
